@@ -167,6 +167,15 @@ def run_case(sc):
             ue["grid"] = dict(module=str(d / "halfmetric_roms.py"), filename=sorted(globmod.glob(str(d / "forcing_*.nc")))[0])
             ue["output"]["filename"] = str(d / "out_usermod_explicit.nc")
             spellings["usermodule_explicit_grid"] = ("yaml", ue)
+        if not sc["subgrid"]:
+            # a different data set (other grid metric) configured and run earlier in the same process, grid section
+            # omitted there too: nothing of it may be left in the configuration of the runs that follow
+            od = d / "other"; od.mkdir()
+            sc2 = copy.deepcopy(sc); sc2["dx"] = (np.array(sc["dx"]) * 4.0).tolist()
+            oconf = scen.write(sc2, od); oconf.pop("grid", None)
+            with open(od / "other.yaml", "w") as f:
+                yaml.safe_dump(oconf, f)
+            lab.run(str(od / "other.yaml"), od)
         pattern = conf2["forcing"]["filename"]
         out["globs"] = {pattern: sorted(globmod.glob(pattern))}
         for name, (fmt, conf) in spellings.items():
@@ -187,6 +196,162 @@ def run_case(sc):
                 f.pop("name", None)
             out["runs"][name] = dict(status=st, files=files)
     return out
+
+
+
+# ---------------------------------------------------------------- parameters the modules derive from the configuration
+
+PERIODS = {   # seconds -> spellings
+    60: [60, [60, "s"], [1, "m"], "PT1M", "PT60S", "PT0H1M"],
+    120: [120, [2, "m"], "PT2M", "PT1M60S", [120, "s"]],
+    3600: [3600, [1, "h"], "PT1H", "PT60M", [60, "m"]],
+    180: [180, [3, "m"], "PT3M"],
+}
+BAD_PERIODS = [1.5, "1M", "PT", "P1D", [1, "x"], [1.5, "m"], ["1", "m"], [1, "m", 2], "PT1.5M", None, "PT5"]
+
+
+def params_cases(seed, n):
+    r = np.random.RandomState(seed)
+    cases = []
+    for k in range(n):
+        c = dict(k=k)
+        c["dt"] = PERIODS[60][r.randint(len(PERIODS[60]))]
+        opsec = int(r.choice([60, 120, 180, 3600]))
+        c["output_period"] = PERIODS[opsec][r.randint(len(PERIODS[opsec]))]
+        c["rev"] = [None, False, True][r.randint(3)]
+        c["reference"] = bool(r.rand() < 0.3)
+        c["numrec"] = [None, 0, 3, 1][r.randint(4)]
+        c["layout"] = [None, "sparse", "dense"][r.randint(3)]
+        c["skip_initial"] = [None, True, False][r.randint(3)]
+        c["advection"] = [None, "EF", "RK2", "RK4", "bogus", ""][r.randint(6)]
+        c["diffusion"] = [None, 0, 0.5, 2][r.randint(4)]
+        c["vertdiff"] = [None, 0.0, 0.001][r.randint(3)]
+        c["vertical_advection"] = [None, True, False][r.randint(3)]
+        c["continuous"] = [None, False, True, True][r.randint(4)]
+        c["release_frequency"] = PERIODS[120][r.randint(len(PERIODS[120]))] if c["continuous"] else ([None, 120][r.randint(2)])
+        c["extra_forcing"] = [None, ["temp"], []][r.randint(3)]
+        c["subgrid"] = [None, [2, 9, 1, 7], [1, 10, 2, 8]][r.randint(3)]
+        c["version1"] = bool(k % 5 == 4)
+        if c["version1"]:      # what the legacy vocabulary cannot say is left at its default
+            c.update(rev=None, vertdiff=None, vertical_advection=None, numrec=None, layout=None, skip_initial=None)
+            if c["extra_forcing"] == []:
+                c["extra_forcing"] = None
+        if k % 6 == 5:          # one malformed or missing period
+            which = ["dt", "output_period", "release_frequency"][r.randint(3)]
+            c[which] = BAD_PERIODS[r.randint(len(BAD_PERIODS))] if r.rand() < 0.8 else 0
+            if which == "release_frequency":
+                c["continuous"] = True
+        cases.append(c)
+    return cases
+
+
+def params_conf(c, d):
+    """the version-2 configuration of a parameter case (all files exist)"""
+    start, stop = (0, 600) if not c["rev"] else (600, 0)
+    conf = lab.base_conf(d, start, stop, c["dt"], c["output_period"], str(Path(d) / "forcing*.nc"),
+                         extra_forcing=c["extra_forcing"] or None)
+    if c["extra_forcing"] == []:
+        conf["forcing"]["extra_forcing"] = []
+    if c["extra_forcing"]:
+        conf["state"]["instance_variables"]["temp"] = "float"
+    conf["tracker"] = {}
+    for key in ("advection", "diffusion", "vertdiff", "vertical_advection"):
+        if c[key] is not None:
+            conf["tracker"][key] = c[key]
+    if c["vertical_advection"]:
+        conf["forcing"].setdefault("extra_forcing", [])
+        if "w" not in conf["forcing"]["extra_forcing"]:
+            conf["forcing"]["extra_forcing"] = list(conf["forcing"]["extra_forcing"]) + ["w"]
+        conf["state"]["instance_variables"]["w"] = "float"
+    if c["rev"] is not None:
+        conf["time"]["time_reversal"] = c["rev"]
+    if c["reference"]:
+        conf["time"]["reference"] = lab.tstr(-3600)
+    for key in ("numrec", "layout", "skip_initial"):
+        if c[key] is not None:
+            conf["output"][key] = c[key]
+    if c["continuous"] is not None:
+        conf["release"]["continuous"] = c["continuous"]
+    if c["release_frequency"] is not None:
+        conf["release"]["release_frequency"] = c["release_frequency"]
+    if c["subgrid"]:
+        conf["grid"] = dict(module="ladim.ROMS", filename=str(Path(d) / "forcing.nc"), subgrid=list(c["subgrid"]))
+    return conf
+
+
+def params_v1(c, conf2, d):
+    """the same set-up in the legacy vocabulary, where it can be said there"""
+    v1 = dict(
+        time_control=dict(start_time=conf2["time"]["start"], stop_time=conf2["time"]["stop"]),
+        files=dict(particle_release_file=conf2["release"]["release_file"], output_file=conf2["output"]["filename"]),
+        gridforce=dict(module="ladim.ROMS", input_file=conf2["forcing"]["filename"]),
+        particle_release=dict(variables=["release_time", "X", "Y", "Z"], release_time="time"),
+        output_variables=dict(outper=c["output_period"], instance=["pid", "X", "Y", "Z"], particle=[]),
+        numerics=dict(dt=c["dt"], advection=c["advection"] if c["advection"] is not None else "EF", diffusion=c["diffusion"] or 0.0),
+    )
+    if c["reference"]:
+        v1["time_control"]["reference_time"] = conf2["time"]["reference"]
+    if c["subgrid"]:
+        v1["gridforce"]["subgrid"] = list(c["subgrid"]); v1["gridforce"]["gridfile"] = conf2["grid"]["filename"]
+    if conf2["forcing"].get("extra_forcing"):
+        v1["gridforce"]["extra_forcing"] = list(conf2["forcing"]["extra_forcing"])
+    if c["continuous"]:
+        v1["particle_release"].update(release_type="continuous", release_frequency=c["release_frequency"])
+    for v in ("pid", "X", "Y", "Z"):
+        enc = conf2["output"]["instance_variables"][v]
+        v1["output_variables"][v] = dict(ncformat=enc["encoding"]["datatype"], **enc["attributes"])
+    return v1
+
+
+def run_params(c):
+    """configure() + Model(): the attributes the modules ended up with"""
+    use_repo()
+    from ladim.configure import configure
+    from ladim.model import Model
+    with lab.scratch() as d:
+        lab.make_grid_forcing(d / "forcing.nc", [-600, 0, 600, 1200], imax=12, jmax=10, N=3,
+                              scal=dict(temp=lambda t, k, j, i: 5.0 + 0 * k, w=lambda t, k, j, i: 0.0 * k))
+        lab.write_release(d / "release.rls", [dict(release_time=0 if not c["rev"] else 600, X=5.0, Y=5.0, Z=2.0),
+                                             dict(release_time=120 if not c["rev"] else 480, X=6.0, Y=5.0, Z=2.0)])
+        conf = params_conf(c, d)
+        v1ok = c["version1"] and not c["rev"] and c["vertdiff"] is None and c["vertical_advection"] is None and c["numrec"] is None \
+            and c["layout"] is None and c["skip_initial"] is None
+        if v1ok:
+            conf = params_v1(c, conf, d)
+            # the legacy vocabulary names the columns in the configuration: the file has no header line
+            lab.write_release(d / "release.rls", [dict(release_time=0, X=5.0, Y=5.0, Z=2.0), dict(release_time=120, X=6.0, Y=5.0, Z=2.0)],
+                              header=False, cols=["release_time", "X", "Y", "Z"])
+        p = d / "conf.yaml"
+        with open(p, "w") as f:
+            yaml.safe_dump(conf, f)
+        pattern = str(Path(d) / "forcing*.nc")
+        out = dict(parsed=canon(conf), globs={pattern: sorted(globmod.glob(pattern))}, version1=bool(v1ok))
+        cwd = os.getcwd(); os.chdir(d)
+        try:
+            config = configure(p)
+            m = Model(config)
+            o = m.output
+            sec = lambda td: int(td / np.timedelta64(1, "s"))
+            out["got"] = dict(
+                dt=sec(m.timer.dt), rev=bool(m.timer.time_reversal), has_ref=bool(m.timer.reference_time != m.timer.min_time),
+                advection=m.tracker.advection, diffusion=bool(m.tracker.diffusion), vertdiff=bool(m.tracker.vertdiff),
+                vertadv=bool(m.tracker.vertical_advection), out_period=sec(o.output_period), out_period_step=int(o.output_period_step),
+                multifile=bool(o.multifile), numrec=int(o.numrec), layout=o.layout, skip_initial=bool(o.skip_initial),
+                continuous=hasattr(m.release, "release_frequency"),
+                rel_freq=sec(m.release.release_frequency) if hasattr(m.release, "release_frequency") else None,
+                extra_forcing=list(m.force.extra_forcing),
+                limits=[int(m.grid.i0), int(m.grid.i1), int(m.grid.j0), int(m.grid.j1)])
+            try:
+                o.close(); m.force.close()
+            except Exception:  # noqa: BLE001
+                pass
+        except SystemExit as e:
+            out["got"] = dict(error=f"exit{e.code}")
+        except Exception as e:  # noqa: BLE001
+            out["got"] = dict(error=type(e).__name__)
+        finally:
+            os.chdir(cwd)
+        return out
 
 
 def run(ctx: Ctx):
@@ -241,3 +406,38 @@ def run(ctx: Ctx):
                               dict(status=r["status"], first_difference=what, reference=str(ref["files"])[:400], this=str(r["files"])[:400],
                                    theorem="Ladim.C18.v1_eq_v2 / defaults_are_empty_sections / grid_default_from_forcing"),
                               tags=dict(first=name))
+
+    # ---- the parameters the modules derive from the configuration (period spellings, defaults of omitted keys)
+    pcases = params_cases(ctx.seed + 1800, 300 if ctx.thorough else 60)
+    pres = pmap(run_params, pcases, warm=False)
+    pwant = driver([dict(op="params", config=g["parsed"], glob=g["globs"]) for g in pres], par=False)
+    for c, g, w in zip(pcases, pres, pwant):
+        small = {k: v for k, v in c.items()}
+        ctx.case("params", [str(sorted((k, str(v)) for k, v in c.items()))], sample=dict(case=small, implementation=g["got"], model=w))
+        ctx.count("params:" + ("v1" if g["version1"] else "v2"))
+        got = g["got"]
+        if "error" in w or "error" in got:
+            ctx.count("params:refused")
+            if w.get("error", "ok")[:5] != got.get("error", "ok")[:5]:
+                ctx.violation("tie-broken", "params", small, dict(implementation=got, model=w,
+                              correspondence="which configurations the module constructors refuse, and how (Ladim.Params.ofCfg)"))
+            continue
+        bad = []
+        for key in ("dt", "rev", "advection", "diffusion", "vertdiff", "vertadv", "out_period", "out_period_step", "multifile", "numrec", "layout",
+                    "skip_initial", "continuous", "rel_freq", "extra_forcing"):
+            if got[key] != w[key]:
+                bad.append(dict(parameter=key, implementation=got[key], model=w[key]))
+        if c["reference"] != got["has_ref"]:
+            bad.append(dict(parameter="reference", implementation=got["has_ref"], expected=c["reference"]))
+        lim = w["subgrid"] if w["subgrid"] is not None else [1, 11, 1, 9]
+        if got["limits"] != lim:
+            bad.append(dict(parameter="subgrid", implementation=got["limits"], model=lim))
+        # the statement: every spelling of the same period gives the same parameters
+        sec = {str(v): k for k, vs in PERIODS.items() for v in vs}
+        if str(c["dt"]) in sec and got["dt"] != sec[str(c["dt"])]:
+            bad.append(dict(parameter="dt", implementation=got["dt"], spelled=c["dt"], means=sec[str(c["dt"])]))
+        if str(c["output_period"]) in sec and abs(got["out_period"]) != sec[str(c["output_period"])]:
+            bad.append(dict(parameter="output_period", implementation=got["out_period"], spelled=c["output_period"], means=sec[str(c["output_period"])]))
+        if bad:
+            ctx.violation("failing-input", "params", small, dict(differences=bad[:4], theorem="Ladim.ParamsProps.spellings_same_params / defaults / v1_eq_v2_params"),
+                          tags=dict(first=bad[0]["parameter"]))
